@@ -132,7 +132,8 @@ def c07(report):
     ecf.defer(jobs, either(by_clause("fresh"), by_clause("state.", "call.exception", ops={"fit"})))
     negatives(report, [("eg", "FitKeepsSums", "Prop_C07_FitIsFresh", None), ("ucb1", "UcbTotalAccumulates", "Prop_C07_FitIsFresh", None),
                        ("ts", "FitKeepsStatus", "Prop_C07_FitIsFresh", dict(Ops=FULL_OPS | {"warm_start"}))])
-    ljobs = life_jobs(report.tier, report.seed, FULL_OPS | {"warm_start"}, tag="-c07", checks=("state", "fresh"))
+    ljobs = life_jobs(report.tier, report.seed, FULL_OPS | {"warm_start"}, tag="-c07", checks=("state", "fresh"),
+                      depth=None if report.tier == "thorough" else 3)
     ecf.defer(ljobs, either(by_clause("fresh"), by_clause("state.", "call.exception", ops={"fit"})))
     ecf.flush(report)
     ecf.life_negative(report, "FitKeepsRows", "Prop_C07_FitIsFresh")
@@ -145,7 +146,7 @@ def c08(report):
     ecf.defer(jobs, by_clause("shape", "state.keys", "state.arms"))
     nb_side(report, ("shape", "trace.post.arms", "trace.Inv_C08", "predict.exception"))
     ljobs = life_jobs(report.tier, report.seed, FULL_OPS | {"warm_start"}, over=dict(QueryRows={1, 2, 3}), tag="-c08", checks=("state", "shape"))
-    ecf.defer(ljobs, by_clause("shape", "state.keys", "state.arms", "call.exception"))
+    ecf.defer(ljobs, by_clause("shape", "state.keys", "state.arms", "state.policy", "call.exception"))
     ecf.flush(report)
     suite_leg(report, by_clause("suite.result", "suite.post.arms"))
     _nontrivial_from_counts(report, "cf.queries")
@@ -268,7 +269,8 @@ def c19(report):
     report.nontrivial_rule = "states at which deepcopy and pickle (protocols 2-5) clones were compared with the original"
     jobs = cf_jobs(CF_LPS, report.tier, report.seed, ops=FULL_OPS | {"warm_start"}, checks=("clone",))
     ecf.defer(jobs, by_clause("clone"))
-    ljobs = life_jobs(report.tier, report.seed, FULL_OPS | {"warm_start"}, over=dict(QueryRows={1}), tag="-c19", checks=("clone",))
+    ljobs = life_jobs(report.tier, report.seed, FULL_OPS | {"warm_start"}, over=dict(QueryRows={1}), tag="-c19", checks=("clone",),
+                      depth=None if report.tier == "thorough" else 3)
     ecf.defer(ljobs, by_clause("clone"))
     ecf.flush(report)
     _nontrivial_from_counts(report, "cf.clones")
@@ -322,8 +324,7 @@ def c03(report):
     report.nontrivial_rule = ("recorded Radius/KNearest executions validated by TraceNbhd.tla; non-trivial = queries whose "
                               "result was compared with the TLC-computed documented neighbourhood")
     nps = ["radius", "knearest"]
-    for np_ in nps:
-        enb.exhaustive(report, np_, report.tier)
+    _parallel_exhaustive(report, nps)
     lps = ["eg", "ucb1", "ts", "softmax"] if report.tier == "thorough" else ["eg", "ucb1", ["ts", "softmax", "pop"][report.seed % 3]]
     jobs = enb.jobs_for(nps, lps, report.tier, report.seed, nb_variants(report.tier, report.seed, nps))
     enb.run_jobs(report, jobs, nb_filter(nps, *NB_TRACE))
@@ -354,8 +355,7 @@ def c12(report):
     report.nontrivial_rule = ("recorded Clusters/TreeBandit executions validated by TraceNbhd.tla (cells from the fitted "
                               "sklearn objects, leaf bookkeeping); non-trivial = queries compared with the TLC oracle")
     nps = ["clusters", "tree"]
-    for np_ in nps:
-        enb.exhaustive(report, np_, report.tier)
+    _parallel_exhaustive(report, nps)
     lps = ["eg", "ucb1", "ts"] if report.tier == "thorough" else ["eg", "ucb1"]
     jobs = enb.jobs_for(nps, lps, report.tier, report.seed, nb_variants(report.tier, report.seed, nps, want=2, always=(3,)
                                                                        if True else ()))
@@ -364,6 +364,25 @@ def c12(report):
     _nb_counts(report)
     report.assumptions += ["k-means and CART fitting are scikit-learn's; the specification takes the cell / leaf of every row "
                            "and query from the fitted objects (kmeans.labels_, kmeans.predict, tree.apply)"]
+
+
+def _parallel_exhaustive(report, nps):
+    """The exhaustive Nbhd.tla runs are single-worker TLC processes: run them side by side."""
+    import concurrent.futures
+    from harness.common import Report
+    parts = []
+    with concurrent.futures.ThreadPoolExecutor(len(nps)) as pool:
+        futures = []
+        for np_ in nps:
+            sub = Report(report.prop, report.tier, report.seed)
+            parts.append(sub)
+            futures.append(pool.submit(enb.exhaustive, sub, np_, report.tier))
+        for f in futures:
+            f.result()
+    for sub in parts:
+        report.states += sub.states
+        report.transitions += sub.transitions
+        report.tlc_runs += sub.tlc_runs
 
 
 def nb_side(report, prefixes, lps=("eg", "ucb1", "ts")):
